@@ -206,26 +206,17 @@ Qed.
 (** *** chunkSegment *)
 Lemma chunkSegment_ok fs st newTime newNr newDur C cs :
   chunkSegment fs st newTime newNr newDur C = Ok cs ->
-  u32 C <> 0 /\ cs = chunk_loop C newNr fs [] st 1 0 0 newTime.
-Proof.
-  unfold chunkSegment, go_div. destruct (u32 C =? 0) eqn:E; cbn [bind]; [discriminate|].
-  intros H; injection H as <-. split; [lia|reflexivity].
-Qed.
+  cs = chunk_loop C newNr fs [] st 1 0 0 newTime.
+Proof. unfold chunkSegment. intros H; injection H as <-. reflexivity. Qed.
 
-Lemma chunkSegment_zero fs st newTime newNr newDur C :
-  u32 C = 0 ->
-  chunkSegment fs st newTime newNr newDur C = Panic "chunkSegment:segMeta.newDur/uint32(chunkDur)".
-Proof. intros E. unfold chunkSegment, go_div. rewrite E. reflexivity. Qed.
+(** chunkSegment never fails and never panics (since repair 1ce6842), whatever the chunk duration. *)
+Lemma chunkSegment_total fs st newTime newNr newDur C :
+  exists cs, chunkSegment fs st newTime newNr newDur C = Ok cs.
+Proof. eexists. reflexivity. Qed.
 
 Lemma chunkDur_zero segDurMS atoMS ts :
   Z.abs ((segDurMS - atoMS) * ts) < 1000 -> chunkDurOf segDurMS atoMS ts = 0.
 Proof. intros H. unfold chunkDurOf. apply Z.quot_small_iff; lia. Qed.
-
-Lemma chunkdur_panic fs st newTime newNr newDur segDurMS atoMS ts :
-  Z.abs ((segDurMS - atoMS) * ts) < 1000 ->
-  chunkSegment fs st newTime newNr newDur (chunkDurOf segDurMS atoMS ts)
-  = Panic "chunkSegment:segMeta.newDur/uint32(chunkDur)".
-Proof. intros H. rewrite (chunkDur_zero _ _ _ H). apply chunkSegment_zero. reflexivity. Qed.
 
 Lemma chunkSegment_partition fs st newTime newNr newDur C cs :
   0 < C -> wf_input fs newTime -> Forall (fun s => 0 < s_dur s) fs ->
@@ -233,7 +224,7 @@ Lemma chunkSegment_partition fs st newTime newNr newDur C cs :
   samples_of cs = stamped newTime fs /\ contiguous newTime cs /\
   styp_first st cs /\ Forall (fun c => c_seq c = newNr /\ c_samples c <> []) cs.
 Proof.
-  intros HC (Hd & H32 & Ht & H64) Hpos H. apply chunkSegment_ok in H. destruct H as [_ ->].
+  intros HC (Hd & H32 & Ht & H64) Hpos H. apply chunkSegment_ok in H. subst cs.
   pose proof (inv_init C fs newTime HC Hd H32 Ht H64) as I.
   assert (E : samples_of (chunk_loop C newNr fs [] st 1 0 0 newTime) = stamped newTime fs).
   { rewrite (chunk_loop_concat _ _ _ _ _ _ _ _ _ I Hpos); [reflexivity|congruence]. }
@@ -256,7 +247,7 @@ Lemma chunkSegment_span fs st newTime newNr newDur C cs :
   Forall (fun c => chunk_span c <= c_dur c /\ chunk_span c < C + max_dur fs /\
                    (c_dur c = chunk_span c \/ (c_dur c = C /\ chunk_span c < C))) cs.
 Proof.
-  intros HC (Hd & H32 & Ht & H64) H. apply chunkSegment_ok in H. destruct H as [_ ->].
+  intros HC (Hd & H32 & Ht & H64) H. apply chunkSegment_ok in H. subst cs.
   assert (HC0 : 0 < C) by lia.
   pose proof (inv_init C fs newTime HC0 Hd H32 Ht H64) as I.
   apply chunk_loop_durs; auto.
@@ -269,12 +260,92 @@ Lemma chunkSegment_ends fs st newTime newNr newDur C cs :
   chunkSegment fs st newTime newNr newDur C = Ok cs ->
   ends_bounded C (max_dur fs) newTime 1 newTime cs.
 Proof.
-  intros HC (Hd & H32 & Ht & H64) HdC H. apply chunkSegment_ok in H. destruct H as [_ ->].
+  intros HC (Hd & H32 & Ht & H64) HdC H. apply chunkSegment_ok in H. subst cs.
   pose proof (inv_init C fs newTime HC Hd H32 Ht H64) as I.
   replace newTime with (newTime + 0 - 0) at 2 by lia.
   apply chunk_loop_ends; auto; try lia.
   - clear. induction fs; cbn; [lia|]. fold (max_dur fs). lia.
   - pose proof (max_dur_ge fs) as HM. rewrite Forall_forall in *. intros s Hs. split; auto.
+Qed.
+
+(** *** chunk duration <= 0 (availabilityTimeOffset >= segment duration): every sample is a chunk
+    of its own, paced with its own duration; nothing is lost, whatever the sample durations *)
+Fixpoint per_sample (seq : Z) (styp : bool) (dt : Z) (fs : list sample) : list chunk :=
+  match fs with
+  | [] => []
+  | s :: r => {| c_styp := styp; c_seq := seq; c_samples := [set_dt s dt]; c_dur := s_dur s |}
+              :: per_sample seq false (dt + s_dur s) r
+  end.
+
+Lemma chunk_loop_nonpositive C seq : C <= 0 -> forall fs styp nr total dt,
+  1 <= nr -> 0 <= total -> Forall (fun s => 0 <= s_dur s < two32) fs ->
+  0 <= dt -> dt + sum_durs fs < two64 ->
+  chunk_loop C seq fs [] styp nr 0 total dt = per_sample seq styp dt fs.
+Proof.
+  intros HC. induction fs as [|s r IH]; intros styp nr total dt Hnr Htot Hd Hdt H64; [reflexivity|].
+  apply Forall_cons_iff in Hd. destruct Hd as [Hs Hd]. rewrite sum_durs_cons in H64.
+  assert (0 <= sum_durs r) by (apply sum_durs_nonneg; eapply Forall_impl; [|exact Hd]; cbn beta; lia).
+  cbn [chunk_loop per_sample]. destruct (total + s_dur s >=? C * nr) eqn:E; [|nia].
+  rewrite Z.add_0_l, (u32_small (s_dur s)) by lia. rewrite u64_small by lia.
+  cbn [app]. f_equal. apply IH; try lia. assumption.
+Qed.
+
+Lemma per_sample_facts seq : forall fs styp dt,
+  samples_of (per_sample seq styp dt fs) = stamped dt fs /\
+  length (per_sample seq styp dt fs) = length fs /\
+  Forall (fun c => c_seq c = seq /\ length (c_samples c) = 1%nat /\ c_dur c = chunk_span c) (per_sample seq styp dt fs) /\
+  styp_first styp (per_sample seq styp dt fs).
+Proof.
+  induction fs as [|s r IH]; intros styp dt; cbn [per_sample stamped].
+  - repeat split; constructor.
+  - destruct (IH false (dt + s_dur s)) as (A & B & D & F).
+    split; [unfold samples_of in *; cbn [flat_map c_samples app]; now rewrite A|].
+    split; [cbn [length]; now rewrite B|]. split.
+    + constructor; [|exact D]. cbn. repeat split. unfold chunk_span; cbn. lia.
+    + cbn. split; [reflexivity|]. clear - F. destruct (per_sample seq false (dt + s_dur s) r) as [|c l]; [constructor|].
+      cbn in F. destruct F. constructor; assumption.
+Qed.
+
+Lemma chunkSegment_nonpositive fs st newTime newNr newDur C cs :
+  C <= 0 -> wf_input fs newTime ->
+  chunkSegment fs st newTime newNr newDur C = Ok cs ->
+  cs = per_sample newNr st newTime fs /\
+  samples_of cs = stamped newTime fs /\ length cs = length fs /\
+  Forall (fun c => c_seq c = newNr /\ length (c_samples c) = 1%nat /\ c_dur c = chunk_span c) cs /\
+  styp_first st cs.
+Proof.
+  intros HC (Hd & H32 & Ht & H64) H. apply chunkSegment_ok in H.
+  assert (Hd' : Forall (fun s => 0 <= s_dur s < two32) fs).
+  { clear - Hd H32. induction fs as [|s r IH]; [constructor|]. apply Forall_cons_iff in Hd. destruct Hd as [Hs Hd].
+    rewrite sum_durs_cons in H32. pose proof (sum_durs_nonneg r Hd). constructor; [lia|]. apply IH; [assumption|lia]. }
+  rewrite (chunk_loop_nonpositive C newNr HC fs st 1 0 newTime) in H by (try lia; assumption).
+  subst cs. split; [reflexivity|]. apply per_sample_facts.
+Qed.
+
+(** For every chunk duration the pacing duration of a chunk covers its media span. *)
+Lemma chunk_durs_cover fs st newTime newNr newDur C cs :
+  C < two63 -> wf_input fs newTime ->
+  chunkSegment fs st newTime newNr newDur C = Ok cs ->
+  Forall (fun c => 0 <= chunk_span c <= c_dur c) cs.
+Proof.
+  intros HC Hwf H. destruct (Z_lt_le_dec 0 C) as [Hp|Hn].
+  - pose proof (chunkSegment_span _ _ _ _ _ _ _ (conj Hp HC) Hwf H) as Hspan.
+    destruct Hwf as (Hd & _ & Ht & _). apply chunkSegment_ok in H. subst cs.
+    assert (G : forall fs cur styp nr this total dt, Forall (fun s => 0 <= s_dur s) fs -> Forall (fun s => 0 <= s_dur s) cur ->
+              Forall (fun c => Forall (fun s => 0 <= s_dur s) (c_samples c)) (chunk_loop C newNr fs cur styp nr this total dt)).
+    { clear. induction fs as [|s r IH]; intros cur styp nr this total dt Hf Hc; cbn [chunk_loop].
+      - destruct (this >? 0); repeat constructor; assumption.
+      - inversion Hf; subst.
+        assert (Forall (fun s => 0 <= s_dur s) (cur ++ [set_dt s dt])) by (apply Forall_app; split; [assumption|repeat constructor; cbn; assumption]).
+        destruct (total + s_dur s >=? C * nr); [constructor; [assumption|]|]; apply IH; auto. }
+    specialize (G fs [] st 1 0 0 newTime Hd (Forall_nil _)).
+    rewrite Forall_forall in *. intros c Hc. specialize (G c Hc). specialize (Hspan c Hc).
+    split; [apply sum_durs_nonneg; exact G|tauto].
+  - destruct (chunkSegment_nonpositive _ _ _ _ _ _ _ Hn Hwf H) as (E & _ & _ & F & _).
+    destruct Hwf as (Hd & _). subst cs. clear - Hd.
+    revert st newTime. induction fs as [|s r IH]; intros st newTime; cbn [per_sample]; [constructor|].
+    apply Forall_cons_iff in Hd. destruct Hd as [Hs Hd]. constructor; [|apply IH; assumption].
+    unfold chunk_span; cbn. lia.
 Qed.
 
 (** *** Pacing *)
@@ -356,7 +427,7 @@ Section PacingProofs.
       wall clock [vnow]) that is not before the millisecond in which the chunk's media ends;
       the chunks are written in order. *)
   Lemma never_early fs st newTime newNr newDur C cs ts nowMS startTimeS k0 :
-    0 < C < two63 -> 0 < ts -> 0 <= startTimeS -> wf_input fs newTime ->
+    C < two63 -> 0 < ts -> 0 <= startTimeS -> wf_input fs newTime ->
     chunkSegment fs st newTime newNr newDur C = Ok cs ->
     exists ws,
       writeChunked clock sleep ts nowMS startTimeS newTime k0 cs = Ok ws /\
@@ -365,25 +436,13 @@ Section PacingProofs.
       StronglySorted lt (map snd ws) /\ Forall (fun aw => (k0 < snd aw)%nat) ws.
   Proof.
     intros HC Hts Hst Hwf H.
-    pose proof (chunkSegment_span _ _ _ _ _ _ _ HC Hwf H) as Hspan.
+    pose proof (chunk_durs_cover _ _ _ _ _ _ _ HC Hwf H) as Hnn.
     unfold writeChunked.
     destruct (pace_loop_ok ts nowMS (clock k0) ltac:(lia) cs (S k0) (newTime + startTimeS * ts)) as (ws & E & Hlen).
     exists ws. split; [exact E|].
     destruct (pace_loop_spec ts nowMS (clock k0) ltac:(lia) cs (S k0) _ ws (clock_mono k0) E) as (A & B & D).
     split; [|split; [exact D|]].
     - destruct Hwf as (Hd & _ & Ht & _).
-      assert (Hnn : Forall (fun c => 0 <= chunk_span c <= c_dur c) cs).
-      { apply chunkSegment_ok in H. destruct H as [_ ->].
-        assert (G : forall fs cur styp nr this total dt, Forall (fun s => 0 <= s_dur s) fs -> Forall (fun s => 0 <= s_dur s) cur ->
-                  Forall (fun c => Forall (fun s => 0 <= s_dur s) (c_samples c)) (chunk_loop C newNr fs cur styp nr this total dt)).
-        { clear. induction fs as [|s r IH]; intros cur styp nr this total dt Hf Hc; cbn [chunk_loop].
-          - destruct (this >? 0); repeat constructor; assumption.
-          - inversion Hf; subst.
-            assert (Forall (fun s => 0 <= s_dur s) (cur ++ [set_dt s dt])) by (apply Forall_app; split; [assumption|repeat constructor; cbn; assumption]).
-            destruct (total + s_dur s >=? C * nr); [constructor; [assumption|]|]; apply IH; auto. }
-        specialize (G fs [] st 1 0 0 newTime Hd (Forall_nil _)).
-        rewrite Forall_forall in *. intros c Hc. specialize (G c Hc). specialize (Hspan c Hc).
-        split; [apply sum_durs_nonneg; exact G|tauto]. }
       pose proof (avail_list_mono ts Hts cs (newTime + startTimeS * ts) (newTime + startTimeS * ts) ltac:(nia) Hnn) as F.
       rewrite <- A in F. clear - F B.
       revert F B. generalize (true_ends (newTime + startTimeS * ts) cs). induction ws as [|w ws IH]; intros te F B.
@@ -497,46 +556,3 @@ Proof.
   - repeat constructor; cbn; lia.
 Qed.
 
-(** *** chunk duration below zero: every sample is a chunk of its own *)
-Lemma chunk_loop_negative C seq : C < 0 -> forall fs styp nr total dt,
-  1 <= nr -> 0 <= total -> Forall (fun s => 0 <= s_dur s) fs ->
-  let cs := chunk_loop C seq fs [] styp nr 0 total dt in
-  length cs = length fs /\ Forall (fun c => length (c_samples c) = 1%nat) cs.
-Proof.
-  intros HC. induction fs as [|s r IH]; intros styp nr total dt Hnr Htot Hd; cbv zeta.
-  - cbn. split; [reflexivity|constructor].
-  - apply Forall_cons_iff in Hd. destruct Hd as [Hs Hd]. cbn [chunk_loop].
-    destruct (total + s_dur s >=? C * nr) eqn:E; [|nia].
-    destruct (IH false (nr + 1) (total + s_dur s) (u64 (dt + s_dur s)) ltac:(lia) ltac:(lia) Hd) as [L F].
-    cbn [length]. split; [now rewrite L|]. constructor; [reflexivity|exact F].
-Qed.
-
-Lemma chunkSegment_negative fs st newTime newNr newDur C cs :
-  C < 0 -> Forall (fun s => 0 <= s_dur s) fs ->
-  chunkSegment fs st newTime newNr newDur C = Ok cs ->
-  length cs = length fs /\ Forall (fun c => length (c_samples c) = 1%nat) cs.
-Proof.
-  intros HC Hd H. apply chunkSegment_ok in H. destruct H as [_ ->].
-  apply (chunk_loop_negative C newNr HC fs st 1 0 newTime); [lia|lia|assumption].
-Qed.
-
-(** *** The two variants of the caller (with / without the guard [chunkDur <= 0]) *)
-Lemma chunksOf_domain g fs st newTime newNr newDur C :
-  0 < C -> chunksOf g fs st newTime newNr newDur C = chunkSegment fs st newTime newNr newDur C.
-Proof. intros H. unfold chunksOf. destruct g; cbn [andb]; [destruct (C <=? 0) eqn:E; [lia|reflexivity]|reflexivity]. Qed.
-
-Lemma chunksOf_unguarded fs st newTime newNr newDur C :
-  chunksOf false fs st newTime newNr newDur C = chunkSegment fs st newTime newNr newDur C.
-Proof. reflexivity. Qed.
-
-(** With the guard no chunk duration below 2^32 ticks can make the handler panic. *)
-Lemma chunksOf_guarded_safe fs st newTime newNr newDur C :
-  C < two32 -> is_panic (chunksOf true fs st newTime newNr newDur C) = false.
-Proof.
-  intros H. unfold chunksOf. cbn [andb]. destruct (C <=? 0) eqn:E; [reflexivity|].
-  unfold chunkSegment, go_div. rewrite u32_small by lia. destruct (C =? 0) eqn:E0; [lia|]. reflexivity.
-Qed.
-
-Lemma chunksOf_guarded_refuses fs st newTime newNr newDur C :
-  C <= 0 -> exists e, chunksOf true fs st newTime newNr newDur C = Err e.
-Proof. intros H. unfold chunksOf. cbn [andb]. destruct (C <=? 0) eqn:E; [eexists; reflexivity|lia]. Qed.
